@@ -592,12 +592,13 @@ Section WithConfig.
     | e => (x2, Out e log2 (r_pdrs all))
     end.
 
+  (* sendDelete: the counter cells go back to the pool only after the DELETE batches succeeded *)
   Definition send_delete (del : rules) (x : up4) : up4 * outcome :=
-    let x1 := with_ctr_pool x (fold_left (fun pool r => nset_add (rp_ctr r) pool) (r_pdrs del) (u_ctr_pool x)) in
-    let '(x2, log2, r2) := modify_cfg UDelete (r_pdrs del) (r_fars del) (r_qers del) x1 [] in
+    let '(x2, log2, r2) := modify_cfg UDelete (r_pdrs del) (r_fars del) (r_qers del) x [] in
     match r2 with
     | ROk =>
-      let '(x3, log3) := reset_meters (r_qers del) x2 log2 in
+      let x2' := with_ctr_pool x2 (fold_left (fun pool r => nset_add (rp_ctr r) pool) (r_pdrs del) (u_ctr_pool x2)) in
+      let '(x3, log3) := reset_meters (r_qers del) x2' log2 in
       let '(x4, log4) := remove_peers (r_fars del) x3 log3 in
       (fold_left ue_remove (r_pdrs del) x4, Out ROk log4 (r_pdrs del))
     | e => (x2, Out e log2 (r_pdrs del))
